@@ -26,7 +26,7 @@ write_log = dict(
                 pre_rules=[(r'char\s+const\*\s+message_format\s*=\s*log_metadata->message_format\(\)\s*;', 'bool message_format_is_copy = false;', 1),
                            (r'strchr\(log_metadata->message_format\(\),\s*\'\\n\'\)\s*!=\s*nullptr', 'MM_has_newline(log_metadata)', 1),
                            (r'_format\s*=\s*log_metadata->message_format\(\)\s*;', 'FORMAT_assign_copy(self, log_metadata);', 1),
-                           (r'\(pos\s*=\s*_format\.find\(\'\\n\',\s*pos\)\)\s*!=\s*std::string::npos', '(pos = FORMAT_find_nl(self, pos)) != NPOS', 1),
+                           (r'_format\.find\(\'\\n\',\s*([^()]*)\)', r'FORMAT_find_nl(self, \1)', 1), (r'std::string::npos', 'NPOS', 1),
                            (r'_format\.replace\(pos,\s*1,\s*" "\)\s*;', 'FORMAT_replace_with_space(self, pos);', 1),
                            (r'message_format\s*=\s*_format\.data\(\)\s*;', 'message_format_is_copy = true;', 1),
                            (r'_json_message\.clear\(\)\s*;', 'JSON_clear(self);', 1),
